@@ -186,7 +186,7 @@ async def _play(w: World, hist: list, timeout: float = 90.0) -> None:
                     desc[o] = d
                     for later in hist[i + 1 :]:
                         if later[0] == "reply" and later[1] == o:
-                            w.forced[o] = (later[2], tuple(later[3]) if k == "unprotect" else None)
+                            w.forced[o] = (later[2], tuple(later[3]) if (k == "unprotect" and later[2] != "err") else None)
                             break
                     w.events.append({"ev": "begin", "o": o, "kind": k, "rk": rk, "sd": sd, "l0": l0, "pos": list(pos)})
                     if k == "unprotect":
@@ -224,6 +224,20 @@ async def _play(w: World, hist: list, timeout: float = 90.0) -> None:
                         gates.setdefault((o, "reply"), asyncio.Event()).set()
                         await wait_until(o, "close")
                         collect(o)
+                elif kind == "cancel":
+                    o = ev[1]
+                    if o in tasks and not tasks[o].done():
+                        tasks[o].cancel()
+                        for g in ("reply", "close"):
+                            gates.setdefault((o, g), asyncio.Event())
+                        try:
+                            await asyncio.wait_for(asyncio.shield(tasks[o]), 10)
+                        except BaseException:  # noqa
+                            pass
+                    if o not in ended:
+                        ended.add(o)
+                        done_ok = o in tasks and tasks[o].done() and not tasks[o].cancelled() and tasks[o].exception() is None
+                        w.events.append({"ev": "end", "o": o, "named": ["-", "-", -1, -1, -1], "res": "cancelled" if not done_ok else "cancel_ignored"})
                 elif kind == "finish":
                     o = ev[1]
                     if o in tasks and not tasks[o].done():
@@ -270,7 +284,7 @@ def _write_mc_cfg(ctx: Ctx, name: str, **kw: str) -> str:
         "RootKeys": "MC_Rk1", "SDs": "MC_SD2", "L0s": "MC_L0s", "Positions": "MC_Pos3", "Ops": "MC_Ops3",
         "Clock": "MC_ClockFixed", "ReplyKinds": "MC_Seed", "SyncFlavours": "MC_Async",
     }
-    lit = {"DefaultRk": '"rk1"', "LaterReplies": "FALSE"}
+    lit = {"DefaultRk": '"rk1"', "LaterReplies": "FALSE", "Cancels": "FALSE"}
     for k, v in kw.items():
         if k in base:
             base[k] = v
@@ -283,7 +297,7 @@ def _write_mc_cfg(ctx: Ctx, name: str, **kw: str) -> str:
         text += "CONSTRAINT Emit\n"
     else:
         text += ("VIEW view\nINVARIANT TypeOK\nINVARIANT EnvCovers\nINVARIANT Transparent\nINVARIANT CacheWellFormed\n"
-                 "INVARIANT ObtainedIsCached\nPROPERTY NoRepeatRpc\nPROPERTY RootKeyIsOffline\nPROPERTY CacheMonotone\n")
+                 "INVARIANT ObtainedIsCached\nPROPERTY NoRepeatRpc\nPROPERTY RootKeyIsOffline\nPROPERTY CacheMonotone\nPROPERTY FailedCallsLeaveCacheUnchanged\n")
     p = ctx.rundir / name
     p.write_text(text)
     return str(p)
@@ -296,7 +310,9 @@ def _model_check(ctx: Ctx) -> None:
                   **({} if ctx.thorough else {"SDs": "MC_SD1"})))]
     runs.append(("moving clock across an L0 boundary, sync+async, 2 ops, seed or public-key replies",
                  dict(Ops="MC_Ops2", SDs="MC_SD1", Clock="MC_ClockMoving", ReplyKinds="MC_Both", SyncFlavours="MC_SyncAsync", Positions="MC_Pos5")))
+    runs.append(("GetKey failures and cancellation of suspended async calls, 2 ops", dict(Ops="MC_Ops2", SDs="MC_SD1", ReplyKinds="MC_Faulty", Cancels="TRUE")))
     if ctx.thorough:
+        runs.append(("GetKey failures and cancellation, 3 ops", dict(SDs="MC_SD1", ReplyKinds="MC_Faulty", Cancels="TRUE")))
         runs.append(("async, later replies, 3 ops, 5 positions, 1 SD", dict(SDs="MC_SD1", LaterReplies="TRUE", Positions="MC_Pos5")))
         runs.append(("moving clock, async, 3 ops, 1 SD", dict(SDs="MC_SD1", Clock="MC_ClockMoving", Positions="MC_Pos3")))
     for k, (what, kw) in enumerate(runs):
@@ -308,7 +324,7 @@ def _model_check(ctx: Ctx) -> None:
     live.write_text(
         "CONSTANT RootKeys <- MC_Rk1\nCONSTANT SDs <- MC_SD1\nCONSTANT L0s <- MC_L0s\nCONSTANT Positions <- MC_Pos3\nCONSTANT Ops <- MC_Ops2\n"
         "CONSTANT Clock <- MC_ClockMoving\nCONSTANT ReplyKinds <- MC_Both\nCONSTANT SyncFlavours <- MC_SyncAsync\n"
-        "CONSTANT DefaultRk = \"rk1\"\nCONSTANT LaterReplies = FALSE\nSPECIFICATION Spec\nVIEW view\nPROPERTY EventuallyDone\nCHECK_DEADLOCK FALSE\n")
+        "CONSTANT DefaultRk = \"rk1\"\nCONSTANT LaterReplies = FALSE\nCONSTANT Cancels = FALSE\nSPECIFICATION Spec\nVIEW view\nPROPERTY EventuallyDone\nCHECK_DEADLOCK FALSE\n")
     r = run_tlc("MC_KeyCache", str(live), rundir=ctx.rundir, heap="3g", tag="live")
     require_ok(r, "KeyCache liveness: every begun call completes (WF on DcReply/Finish)")
     ctx.add_tlc(r, "KeyCache liveness []<>AllDone, 2 ops")
@@ -319,7 +335,8 @@ def _emit_behaviours(ctx: Ctx, n: int) -> list[tuple[tuple[int, int], list]]:
     variants = [dict(emit="1", SyncFlavours="MC_SyncAsync", ReplyKinds="MC_Both", LaterReplies="TRUE", RootKeys="MC_Rk2", Positions="MC_Pos5"),
                 dict(emit="1", SyncFlavours="MC_Async", ReplyKinds="MC_Seed", LaterReplies="FALSE", RootKeys="MC_Rk1", Positions="MC_Pos3"),
                 dict(emit="1", SyncFlavours="MC_SyncAsync", ReplyKinds="MC_Both", LaterReplies="FALSE", RootKeys="MC_Rk1", SDs="MC_SD1", Positions="MC_Pos5",
-                     Clock="MC_ClockMoving")]
+                     Clock="MC_ClockMoving"),
+                dict(emit="1", SyncFlavours="MC_SyncAsync", ReplyKinds="MC_Faulty", Cancels="TRUE", RootKeys="MC_Rk1", SDs="MC_SD1", Positions="MC_Pos3")]
     for k, kw in enumerate(variants):
         cfg = _write_mc_cfg(ctx, f"emit{k}.cfg", **kw)
         r = run_tlc("MC_KeyCache", cfg, rundir=ctx.rundir, workers=4, simulate=f"num={n // len(variants)}", depth=14,
@@ -455,7 +472,7 @@ def _random_histories(ctx: Ctx, n: int) -> list[tuple[tuple[int, int], list]]:
                 else:
                     hist.append(["begin", o, "protect", (focus[0] if focus and rng.random() < 0.7 else rng.choice(["rk1", "rk2", NORK])), (focus[1] if focus else rng.choice(["sdA", "sdB"])), -1, [-1, -1], sync])
                     q = now
-                kind = "pub" if rng.random() < 0.15 else "rpc"
+                kind = "pub" if rng.random() < 0.15 else ("err" if rng.random() < 0.08 else "rpc")
                 if sync:
                     hist.append(["reply", o, kind, list(q)])
                     hist.append(["finish", o])
@@ -465,6 +482,11 @@ def _random_histories(ctx: Ctx, n: int) -> list[tuple[tuple[int, int], list]]:
                     pending[o + "#"] = desc_q  # type: ignore
             else:
                 o = rng.choice([k for k in pending if not k.endswith("#")])
+                if rng.random() < 0.06:
+                    hist.append(["cancel", o])
+                    del pending[o]
+                    del pending[o + "#"]
+                    continue
                 if pending[o] == "await":
                     kind, q = pending[o + "#"]  # type: ignore
                     hist.append(["reply", o, kind, q])
